@@ -372,6 +372,7 @@ class Engine2(Engine):
             (alo, ahi), (blo, bhi) = int_of(st, x), int_of(st, y)
             return [(st, mk_int(max(alo, blo), max(ahi, bhi), "max"))]
         if re.search(r"::(leading_zeros|trailing_zeros|count_ones|count_zeros)$", n): return [(st, mk_int(0, 64, "bitcount"))]
+        if re.search(r"RangeInclusive(<.*>)?::new$", n) and len(args) == 2: return [(st, RecV("std::ops::RangeInclusive", {"start": args[0], "end": args[1]}))]
         if re.search(r"Range(Inclusive)?<.*>::contains$|RangeInclusive::contains$|Range::contains$|<Idx>::contains$", n) and len(args) == 2:
             rg, x = deref(args[0]), deref(args[1])
             if isinstance(rg, RecV) and isinstance(x, IntV) and "start" in rg.fields and "end" in rg.fields and isinstance(rg.fields["start"], IntV) and isinstance(rg.fields["end"], IntV):
